@@ -4,7 +4,7 @@
    (Model/AuthSpec.v, clauses P1..P5), plus the challenge parser called directly. *)
 From Coq Require Import String ZArith.
 From OCI Require Export Base.Outcome Obs.AuthObs.
-From OCI Require Import Proofs.Challenge Proofs.AuthC11 Proofs.AuthBody Proofs.AuthParse.
+From OCI Require Import Proofs.Challenge Proofs.AuthC11 Proofs.AuthBody Proofs.AuthParse Proofs.AuthRedirect.
 
 Definition model_agrees (c : case) : bool := AuthObs.model_agrees c.
 
@@ -15,6 +15,8 @@ Definition obs_ok (c : case) : bool :=
       let E := env_of r in
       let h := rev (c_trace r) in
       all_ok (evP1 E) h && all_ok (evP2 E) h && all_ok (evP3 E) h && all_ok evP4 h && all_ok evP5 h && c_untouched r
+      (* every chain of requests by which http.Client followed a token server's redirects *)
+      && forallb (fun ic => evP6 (snd ic)) (c_hops r)
   (* the parser called directly: it does not panic, and it hands out scheme and parameter names
      in lower case whatever the header's spelling (they are case-insensitive, and the transport
      looks up realm / service / scope in lower case) *)
@@ -40,11 +42,51 @@ Definition nontrivial (c : case) : bool :=
   | CParse hdr _ _ => in_bytes 34 hdr || in_bytes 92 hdr || in_bytes 61 hdr
   end.
 
+Lemma list_eqb_refl {A} (f : A -> A -> bool) : (forall a, f a a = true) -> forall l, list_eqb f l l = true.
+Proof. intros Hf. induction l as [|a l IH]; cbn; [reflexivity|]. now rewrite Hf, IH. Qed.
+
+Lemma authz_eqb_refl a : authz_eqb a a = true.
+Proof. destruct a; cbn; rewrite ?beqb_refl; reflexivity. Qed.
+
+Lemma pair_eqb_refl a : pair_eqb a a = true.
+Proof. unfold pair_eqb. now rewrite !beqb_refl. Qed.
+
+(* a chain that agrees with the model of http.Client (under doTokenRequest's redirect hook) satisfies P6 *)
+Lemma chain_P6 m rsp chain :
+  is_tok_msg m = true -> chain_agrees m rsp chain = true -> evP6 chain = true.
+Proof.
+  intros Hm H. apply chain_agrees_sent in H as [h0 [rest [sent [-> [Hm0 [Hd Hrev]]]]]].
+  apply client_do_facts in Hd as [Hlen [Hconf [Hform _]]]; [|exact Hm].
+  assert (Hin : forall h, In h rest -> In (wire_of h) sent).
+  { intros h Hh. apply in_rev. rewrite Hrev. cbn [map]. right. now apply in_map. }
+  assert (Hl : List.length (h0 :: rest) = List.length sent).
+  { rewrite <- (map_length wire_of), <- Hrev. apply rev_length. }
+  unfold evP6. rewrite Hl. replace (List.length sent <=? 10)%nat with true by (symmetry; apply Nat.leb_le; lia).
+  rewrite andb_true_r. rewrite Forall_forall in Hconf, Hform.
+  apply forallb_forall. intros h Hh. specialize (Hconf _ (Hin h Hh)). specialize (Hform _ (Hin h Hh)).
+  apply andb_true_iff. split.
+  - unfold conf, wire_of, w_msg, w_host in Hconf. cbn [fst snd] in Hconf.
+    unfold p6a_hop. destruct Hconf as [->|[-> Hd]]; [reflexivity|].
+    rewrite Hm0, authz_eqb_refl, (dom_or_sub_in_site _ _ Hd). apply orb_true_r.
+  - unfold form_ok, wire_of, w_msg, w_hostport in Hform. cbn [fst snd] in Hform.
+    unfold p6b_hop. destruct (hp_msg h) as [hh a|u f a|u q a]; [contradiction| |reflexivity].
+    destruct Hform as [_ ->]. rewrite beqb_refl. apply orb_true_r.
+Qed.
+
+Lemma hops_P6 r : hops_agree r = true -> forallb (fun ic => evP6 (snd ic)) (c_hops r) = true.
+Proof.
+  unfold hops_agree. induction (c_hops r) as [|[i chain] l IH]; [reflexivity|]. cbn [forallb fst snd].
+  intros H. apply andb_true_iff in H as [H1 H2]. rewrite (IH H2), andb_true_r.
+  destruct (nth_error (c_trace r) i) as [[| |id m rsp| | | |]|]; try discriminate.
+  apply andb_true_iff in H1 as [Hm Hc]. exact (chain_P6 _ _ _ Hm Hc).
+Qed.
+
 Lemma corr_sound c : model_agrees c = true -> obs_ok c = true.
 Proof.
   unfold model_agrees, AuthObs.model_agrees, obs_ok. destruct c as [r|hdr pk o].
-  - intros H. apply run_agrees_history in H as [Hh Hu]. cbn zeta. rewrite Hh, Hu.
-    rewrite P1_holds, P2_holds, P3_holds, P4_holds, P5_holds. reflexivity.
+  - intros H. apply andb_true_iff in H as [H Hh6]. apply run_agrees_history in H as [Hh Hu]. cbn zeta. rewrite Hh, Hu.
+    rewrite P1_holds, P2_holds, P3_holds, P4_holds, P5_holds. cbn [andb].
+    exact (hops_P6 r Hh6).
   - unfold parse_agrees. destruct (parse_total hdr) as [res Hres]. rewrite Hres. destruct res as [h|].
     + intros H. apply andb_true_iff in H as [H1 H2]. rewrite H1. cbn [andb].
       destruct o as [[sch ps]|]; [|discriminate]. apply andb_true_iff in H2 as [Hs Hp].
